@@ -103,13 +103,16 @@ CHECKS = {
   "files that existed are neither removed nor changed (the open uses O_CREATE|O_EXCL, checked as a call-site obligation), a nil error implies that no entry name was absolute or climbed out through '..', "
   "and that each target path holds exactly its entry's data; loop invariants over the processed prefix of a.Files, for every archive and directory.",
   "assumed: the ghost fs contracts of os.OpenFile/(*os.File).Write/Close/os.MkdirAll and the Unix path algebra of filepath.Clean/Join (axiom joinBelow) in /verif/specs/fs.spec; lexical containment only (symlinks below dir are not modelled); "
-  "the txtar-c / txtar-x command-line round trip is not under contract (main functions around filepath.Walk, flag and log.Fatal) and is not decided by this check",
+  "txtar-x's main is under a thin contract (the parsed archive is written into the -C directory; a failing Write ends in exit status 1) and so is txtar-c's walk function (see C14); the byte-exact round trip txtar-c | txtar-x is not decided (it needs Format/Parse, C03's stand-in)",
   "contract-based deductive verification: VCs over go/ssa with ghost file-system state and call-site obligations, discharged by z3/cvc5; violations replayed by a directed probe of the real Write"),
  "C14": ("5 C14",
-  "Contract on txtar.NeedsQuote: the result is true exactly when a file marker line starts at some line start of the body (for every byte string, with or without final newline); "
-  "discharged through findFileMarker's contract (loop invariant: no marker before the scan position).",
-  "assumed: extern contracts for bytes.* and strings.TrimSpace; Quote/Unquote clauses are not yet under contract and are not claimed by this check",
-  "contract-based deductive verification: VCs over go/ssa with a loop invariant, discharged by z3/cvc5; counterexamples replayed with go test -overlay"),
+  "Contracts on txtar.NeedsQuote (true exactly when a file marker line starts at some line start of the body, for every byte string, with or without final newline; discharged through findFileMarker's contract), "
+  "on txtar.Quote (it refuses exactly the non-empty data that lacks a final newline or is not valid UTF-8, never returns a wrong result instead; its result is newline-terminated and every line of it starts with '>'; loop invariant, termination) "
+  "and the lemma that data whose every line starts with '>' contains no marker line, so a quoted body never needs quoting. "
+  "txtar-c's walk function: a file is archived only if regular, not hidden (unless -a) and valid UTF-8; what is stored is the data NeedsQuote was asked about, quoted exactly when it needs quoting and only with -quote, and a quoted file is announced in the comment. "
+  "Unquote(Quote(data)) == data is checked by a BOUNDED stand-in only (generated bodies over a small alphabet incl. '>' and newline).",
+  "assumed: extern contracts for bytes.*, strings.TrimSpace, utf8.Valid (uninterpreted); Unquote (bytes.Replace / TrimPrefix) has no functional contract: bounded only; 'survives Format/Parse unchanged' rests on C03's stand-in; in txtar-c the final-newline normalisation and the relative file name are not specified, os/filepath.Walk is the library's",
+  "contract-based deductive verification: VCs over go/ssa with loop invariants and a lemma, call-site obligations and ghost bindings for txtar-c; z3/cvc5; counterexamples replayed with go test -overlay; labelled bounded stand-in for Unquote"),
  "C01": ("5 C01",
   "Verdict logic under contract: run executes a line only while no line has failed unless ContinueOnError and never after stop; a failing line without ContinueOnError reaches FailNow; run returns normally only if no line failed (a failure with ContinueOnError still ends in FailNow: no false pass); "
   "PASS is logged only for a run that neither failed nor stopped; Fatalf's FAIL line carries the script's file name and current line number; runLine never dispatches an unknown command and indexes its argument list safely for every line; "
